@@ -184,6 +184,64 @@ func mkProfile(s *scenario) (*profile, error) {
 			}
 			return &peerEnd{write: func(x []byte) error { return c.WritePayload(x, 0) }, ssc: c}, nil
 		}
+	case "scramblesuit-ticket":
+		// the SECOND connection to a bridge: the client redeems the session ticket the first connection was issued (the
+		// handshake is one client message; nothing comes back)
+		p.hasDeadline, p.bound = true, 1532
+		dir, _ := os.MkdirTemp("", "c10-")
+		p.cleanup = func() { os.RemoveAll(dir) }
+		srv := refss.NewServer(secret, rand.Reader)
+		dial := func(raw net.Conn) (net.Conn, error) {
+			cf, err := (&scramblesuit.Transport{}).ClientFactory(dir)
+			if err != nil {
+				return nil, err
+			}
+			a, err := cf.ParseArgs(&pt.Args{"password": {base32.StdEncoding.EncodeToString(secret)}})
+			if err != nil {
+				return nil, err
+			}
+			return cf.Dial("tcp", "192.0.2.9:443", func(string, string) (net.Conn, error) { return raw, nil }, a)
+		}
+		{ // first contact: UniformDH, the bridge issues a ticket, the client reads past it
+			l := wire.NewLink(true, 0)
+			type sres struct {
+				c   *refss.Conn
+				err error
+			}
+			sch := make(chan sres, 1)
+			go func() { c, err := srv.Accept(l.B, 10, nil); sch <- sres{c, err} }()
+			c, err := dial(l.A)
+			if err != nil {
+				return nil, fmt.Errorf("first contact: %v", err)
+			}
+			sr := <-sch
+			if sr.err != nil {
+				return nil, fmt.Errorf("first contact (server): %v", sr.err)
+			}
+			if _, _, err := sr.c.IssueTicket(); err != nil {
+				return nil, err
+			}
+			if err := sr.c.WritePayload([]byte("pong"), 0); err != nil {
+				return nil, err
+			}
+			buf := make([]byte, 4)
+			if _, err := io.ReadFull(c, buf); err != nil {
+				return nil, fmt.Errorf("first contact (read): %v", err)
+			}
+			c.Close()
+			l.B.Close()
+		}
+		p.victim = dial
+		p.peer = func(raw net.Conn) (*peerEnd, error) {
+			c, err := srv.Accept(raw, 100, nil)
+			if err != nil {
+				return nil, err
+			}
+			if c.Info == nil || c.Info.Kind != refss.KindTicket {
+				return nil, fmt.Errorf("the second connection did not redeem a ticket")
+			}
+			return &peerEnd{write: func(x []byte) error { return c.WritePayload(x, 0) }, ssc: c}, nil
+		}
 	default:
 		return nil, fmt.Errorf("unknown transport %s", s.Transport)
 	}
